@@ -1,6 +1,7 @@
 package main
 
 import (
+	"os/exec"
 	"encoding/json"
 	"flag"
 	"fmt"
@@ -445,6 +446,45 @@ func lemmaCtx(P *Program, ss *SpecSet, name string) (*Ctx, error) {
 	return c, err
 }
 
+// runBounded runs a bounded stand-in: cmd = "<package dir relative to the repo>|<test file under /verif/bounded>|<TestName>".
+// The test file is injected with `go test -overlay`; it prints BOUNDED-CASES <n> and, on a failing input, BOUNDED-FAIL <text>.
 func runBounded(vd, cmd, tier string, seed int) (res string, cases int, out string) {
-	return "ok", 0, ""
+	parts := strings.Split(cmd, "|")
+	if len(parts) != 3 {
+		return "error", 0, "bad bounded command " + cmd
+	}
+	pkgDir := filepath.Join(repoDir(), parts[0])
+	src := filepath.Join(vd, "bounded", parts[1])
+	tmp, _ := os.MkdirTemp("", "vcgo-bounded")
+	defer os.RemoveAll(tmp)
+	ov := map[string]interface{}{"Replace": map[string]string{filepath.Join(pkgDir, "zz_vcgo_bounded_test.go"): src}}
+	ovb, _ := json.Marshal(ov)
+	ovFile := filepath.Join(tmp, "overlay.json")
+	os.WriteFile(ovFile, ovb, 0o644)
+	c := exec.Command("go", "test", "-overlay", ovFile, "-vet=off", "-count=1", "-timeout", "600s", "-v", "-run", "^"+parts[2]+"$", ".")
+	c.Dir = pkgDir
+	c.Env = append(os.Environ(), "VCGO_TIER="+tier, fmt.Sprintf("VCGO_SEED=%d", seed))
+	ob, _ := c.CombinedOutput()
+	out = string(ob)
+	for _, l := range strings.Split(out, "\n") {
+		if strings.HasPrefix(l, "BOUNDED-CASES ") {
+			fmt.Sscanf(strings.TrimPrefix(l, "BOUNDED-CASES "), "%d", &cases)
+		}
+	}
+	var fails []string
+	for _, l := range strings.Split(out, "\n") {
+		if strings.HasPrefix(l, "BOUNDED-FAIL") {
+			fails = append(fails, l)
+		}
+	}
+	if len(fails) > 0 {
+		return "violation", cases, strings.Join(fails, "\n") + "\n\nreproduce: cd " + pkgDir + " && go test -overlay <overlay replacing zz_vcgo_bounded_test.go by " + src + "> -run '^" + parts[2] + "$' .\n"
+	}
+	if cases == 0 || !strings.Contains(out, "\nok") && !strings.Contains(out, "PASS") {
+		if len(out) > 1500 {
+			out = out[len(out)-1500:]
+		}
+		return "error", cases, out
+	}
+	return "ok", cases, ""
 }
